@@ -477,7 +477,6 @@ func ruleUnterminatedObservable(c *Ctx) {
 	}
 }
 
-
 // ruleProgramReachesEOF: every success path of the method that builds ast.Program ends with the end-of-input token
 // as current token (tested), so no trailing input is silently dropped.
 func ruleProgramReachesEOF(c *Ctx, t *tables, g *grammarModel) {
